@@ -10,7 +10,7 @@ RULE = ('random configurations (world 1–8, every divisor k, colocate, method, 
         'levels); per-rank traces of (kind, members, element count, element size, root) issues and of every '
         'future wait are compared exactly, in order, with the projection of the Lean global script; the trace '
         'matcher oracle checks matching/membership/roots/new_group order/stalls directly; non-trivial = world>1 and ≥2 steps'
-        '; further input dimensions: layers of two dtypes in one bucket (trace matcher only), no-hook factor updates that find no new batch statistics (eval iteration, reset, repeated step), launcher environment of a multi-node job (LOCAL_RANK ≠ rank), a loss overflowing on a strict subset of ranks (value independence), bfloat16 second-order data, nested module names, tensors kept alive between iterations')
+        '; further input dimensions: every rank a separately spawned interpreter with its own hash seed (tied layer costs) over real gloo, layers of two dtypes in one bucket (trace matcher only), no-hook factor updates that find no new batch statistics (eval iteration, reset, repeated step), launcher environment of a multi-node job (LOCAL_RANK ≠ rank), a loss overflowing on a strict subset of ranks (value independence), bfloat16 second-order data, nested module names, tensors kept alive between iterations')
 TRUSTED = [
     'Lean 4.33 kernel; axioms audited ⊆ {propext, Classical.choice, Quot.sound}',
     'hand-written models KV.Precond (K-FAC state machine emitting the global script) and KV.Sched2 (collective semantics) '
@@ -99,6 +99,7 @@ def run(ctx):
         ctx.count('schedule-pairs')
     mixed_dtype_stream(ctx)
     gloo_stream(ctx)
+    interpreter_stream(ctx)
     neox_stream(ctx)
 
 
@@ -145,13 +146,18 @@ def neox_stream(ctx):
             if cfg.world <= 8:
                 break
         cfg.ops = ['f1', 's'] * rng.randrange(1, 3)
+        if i in (3, 4):
+            # directed: a pipeline stage that registers no K-FAC layer (embedding / norm only) takes part in an in-memory
+            # checkpoint (save, and save + load) like every other stage
+            cfg = neoxsim.NCfg(rng, pp=2, dp=rng.choice([1, 2]), mp=1, blocks=1, empty_stage=i - 3, ckpt_dir=None)
+            cfg.ops = ['f1', 's', 'v', 'f1', 's'] if i == 3 else ['f1', 's', 'l1', 'f1', 's']
         if i < 3:
             # directed: first checkpoint into a directory that does not exist yet, small world, many interleavings
             cfg = neoxsim.NCfg(rng, pp=1, dp=rng.choice([2, 3]), mp=rng.choice([1, 2]), blocks=1)
             cfg.ops = ['f1', 's', 'v', 'f1', 's', 'v']
             cfg.ckpt_dir = os.path.join(OUT, 'neox_ckpt_c03', f'case{i}')
             shutil.rmtree(cfg.ckpt_dir, ignore_errors=True)
-        elif rng.random() < 0.6:
+        elif i > 4 and rng.random() < 0.6:
             cfg.ops += [rng.choice(['v', 'v', 'l1'])] + ['f1', 's'] * rng.randrange(0, 2)
             if rng.random() < 0.5:
                 cfg.ckpt_dir = os.path.join(OUT, 'neox_ckpt_c03', f'case{i}')
@@ -178,6 +184,27 @@ def neox_stream(ctx):
         ctx.count('gpt-neox')
     # ... and exactly, operation by operation, against the projection of the Lean script (checkpoint collectives included)
     neoxsim.compare_script(ctx, pend_script)
+
+
+def interpreter_stream(ctx):
+    """ranks of a real job are separate interpreters with their own string-hash seeds: a couple of configurations with
+    layers of exactly tied cost (identically shaped layers) run over real gloo with every rank spawned as its own interpreter
+    (PYTHONHASHSEED differs per rank) and are compared, collective by collective, with the simulated run"""
+    import gloo_crosscheck
+    rng = ctx.rng
+    for i in range(ctx.budget(2, 8)):
+        world = rng.choice([2, 3])
+        cfg = kfacsim.Config(rng, world=world, k=world if i % 2 == 0 else 1, nest=False, prediv=False, inv32=False, fac32=False, accum=1)
+        cfg.arch = [('lin', 3, 3, True)] * rng.choice([4, 5, 6])
+        cfg.ops = ['f1', 's', 'f1', 's']
+        seeds = [rng.randrange(1, 4000) for _ in range(world)]
+        diffs = gloo_crosscheck.crosscheck(ctx, cfg, sched_seed=ctx.seed + 50 + i, hashseeds=seeds)
+        case = dict(cfg.describe(), sched_seed=ctx.seed + 50 + i, hashseeds=seeds, stream='separate-interpreters')
+        if diffs:
+            ctx.fail(f'ranks started as separate interpreters (hash seeds {seeds}) differ from the single-interpreter run: {diffs[0]}',
+                     dict(case, diffs=diffs[:3]), 'interpreter-dependent')
+        ctx.case(str(case), nontrivial=True, sample=case)
+        ctx.count('separate-interpreters')
 
 
 def gloo_stream(ctx):
